@@ -44,6 +44,19 @@ Theorem fifo_exactly_once :
 Proof. exact fifo_exactly_once_pf. Qed.
 Print Assumptions fifo_exactly_once.
 
+(* per-client conservation, counted -- for ANY number of datagrams, in particular any length of the backlog received
+   before serve() (the not-yet-run handler tasks [spawned] are an unbounded FIFO): every datagram received for a client
+   is handed to a handler invocation exactly once (observed request), or is the single datagram of a refused invocation
+   (generator ended before its first yield), or is still held / queued / with a handler task that has not run *)
+Theorem per_client_conservation :
+  forall (ls : list label) (s : state) (o : list obs) (a : addr),
+    Forall ok_label ls -> trace state0 ls = Some (s, o) ->
+    length (arrivals a ls) =
+      length (received a o) + length (discarded (cl s a)) +
+      length (held (cl s a)) + length (queue (cl s a)) + length (proj a (spawned s)).
+Proof. exact conservation_pf. Qed.
+Print Assumptions per_client_conservation.
+
 (* frame property: a transition about address a changes nothing of any other address b -- neither its _ClientData and
    coroutine state nor its not-yet-started handler tasks ("slow handling of one client does not block others") *)
 Theorem clients_independent :
